@@ -10,6 +10,8 @@ import (
 	"sync"
 	"sync/atomic"
 
+	inhouse "verif/harness/cmd/mvh/inhouse/common"
+
 	"github.com/bluenviron/gomavlib/v3/pkg/frame"
 )
 
@@ -50,6 +52,12 @@ func cmdGate(o opts) {
 	protos := allProtos()
 	ix := defIndex(protos)
 	all := findDialect("allplus")
+	if o.aux == "inhouse" {
+		// the in-house dialect whose message types are namesakes (name, id, even field count) of shipped ones; the shipped
+		// dialects are initialised first, in this process, as a gateway between the two would
+		mustRW(findDialect("common"))
+		all = inhouse.Dialect
+	}
 	cfg := streamCfg{drw: mustRW(all), dl: dialectIndices(all, ix)}
 
 	var vecs []gateVec
